@@ -278,7 +278,16 @@ func dominatingConds(b *ssa.BasicBlock) []condEdge {
 		if !ok {
 			continue
 		}
-		if len(cur.Preds) != 1 || cur.Preds[0] != d {
+		// the edge d -> cur must be the only way into cur from outside cur's own dominance region
+		// (other predecessors may be back edges from blocks cur dominates: conditions on SSA values
+		// are immutable, so they still hold there)
+		only := true
+		for _, pr := range cur.Preds {
+			if pr != d && !cur.Dominates(pr) {
+				only = false
+			}
+		}
+		if !only {
 			continue
 		}
 		if d.Succs[0] == cur && d.Succs[1] != cur {
@@ -366,6 +375,88 @@ func isPureLeaf(f *ssa.Function) bool {
 		}
 	}
 	return true
+}
+
+// descr renders a value for obligation keys and reports: like canon, but local variables are
+// named by their source name instead of their SSA register, so that keys survive unrelated edits.
+func descr(v ssa.Value) string { return descrDepth(v, 0) }
+
+func descrDepth(v ssa.Value, d int) string {
+	if d > 10 {
+		return "..."
+	}
+	switch x := v.(type) {
+	case *ssa.Alloc:
+		if x.Comment != "" {
+			return x.Comment
+		}
+		return "local"
+	case *ssa.Phi:
+		if x.Comment != "" {
+			return x.Comment
+		}
+		return "var"
+	case *ssa.Const:
+		return canon(x)
+	case *ssa.FieldAddr:
+		return descrDepth(x.X, d+1) + "." + fieldName(x.X.Type(), x.Field)
+	case *ssa.Field:
+		return descrDepth(x.X, d+1) + "." + fieldName(x.X.Type(), x.Field)
+	case *ssa.IndexAddr:
+		return descrDepth(x.X, d+1) + "[" + descrDepth(x.Index, d+1) + "]"
+	case *ssa.Index:
+		return descrDepth(x.X, d+1) + "[" + descrDepth(x.Index, d+1) + "]"
+	case *ssa.UnOp:
+		if x.Op == token.MUL {
+			switch x.X.(type) {
+			case *ssa.FieldAddr, *ssa.IndexAddr, *ssa.Alloc, *ssa.FreeVar, *ssa.Global:
+				return descrDepth(x.X, d+1)
+			}
+			return "*" + descrDepth(x.X, d+1)
+		}
+		return x.Op.String() + descrDepth(x.X, d+1)
+	case *ssa.BinOp:
+		return descrDepth(x.X, d+1) + x.Op.String() + descrDepth(x.Y, d+1)
+	case *ssa.Parameter, *ssa.FreeVar:
+		return x.Name()
+	case *ssa.Global:
+		return x.Name()
+	case *ssa.Extract:
+		return descrDepth(x.Tuple, d+1) + "#" + fmt.Sprint(x.Index)
+	case *ssa.Lookup:
+		return descrDepth(x.X, d+1) + "[" + descrDepth(x.Index, d+1) + "]"
+	case *ssa.Call:
+		var as []string
+		for _, a := range x.Call.Args {
+			as = append(as, descrDepth(a, d+1))
+		}
+		n := calleeName(x)
+		if i := strings.LastIndex(n, "."); i >= 0 {
+			n = n[i+1:]
+		}
+		if x.Call.IsInvoke() {
+			n = x.Call.Method.Name()
+			as = append([]string{descrDepth(x.Call.Value, d+1)}, as...)
+		}
+		return n + "(" + strings.Join(as, ",") + ")"
+	case *ssa.MakeInterface:
+		return descrDepth(x.X, d+1)
+	case *ssa.ChangeType:
+		return descrDepth(x.X, d+1)
+	case *ssa.Convert:
+		return descrDepth(x.X, d+1)
+	case *ssa.TypeAssert:
+		return descrDepth(x.X, d+1) + ".(" + typeName(x.AssertedType) + ")"
+	case *ssa.Next:
+		return "next(" + descrDepth(x.Iter, d+1) + ")"
+	case *ssa.Range:
+		return "range " + descrDepth(x.X, d+1)
+	case *ssa.Slice:
+		return descrDepth(x.X, d+1) + "[:]"
+	case *ssa.MakeMap:
+		return describeMapExpr(x)
+	}
+	return typeName(v.Type())
 }
 
 // cellPath decomposes an address value into (root value, field path) when it
